@@ -136,18 +136,27 @@ class Cases:
         return len(self.lines)
 
 
-def run_cases(ctx, exe, cases, timeout=1500):
-    r = vlib.run_driver(exe, '\n'.join(cases.lines) + '\n', timeout=timeout)
-    outs = []
-    for l in r.stdout.splitlines():
-        if l.startswith('{'):
-            outs.append(json.loads(l))
-    if len(outs) != len(cases.lines):
+def _run_part(exe, lines, timeout):
+    r = vlib.run_driver(exe, '\n'.join(lines) + '\n', timeout=timeout)
+    outs = [json.loads(l) for l in r.stdout.splitlines() if l.startswith('{')]
+    if len(outs) != len(lines):
         # an ASan report kills the driver: the case being evaluated is the first unanswered one
-        bad = cases.lines[len(outs)] if len(outs) < len(cases.lines) else '?'
+        bad = lines[len(outs)] if len(outs) < len(lines) else '?'
         raise vlib.MachineryError('driver answered %d of %d (rc=%s); first unanswered input: %s\n%s' % (
-            len(outs), len(cases.lines), r.returncode, bad[:300], r.stderr[-1500:]))
+            len(outs), len(lines), r.returncode, bad[:300], r.stderr[-1500:]))
     return outs
+
+
+def run_cases(ctx, exe, cases, timeout=1500, procs=4):
+    """run the driver on all cases (a few driver processes side by side; every case is independent of the others)"""
+    import concurrent.futures
+    lines = cases.lines
+    n = max(1, min(procs, len(lines) // 2000 + 1))
+    size = (len(lines) + n - 1) // n
+    parts = [lines[i:i + size] for i in range(0, len(lines), size)]
+    with concurrent.futures.ThreadPoolExecutor(max_workers=n) as ex:
+        res = list(ex.map(lambda p: _run_part(exe, p, timeout), parts))
+    return [o for part in res for o in part]
 
 
 def project(o):
